@@ -8,7 +8,7 @@ import gen_prog
 ID = "C19"
 PROP_FILE = "props/C19.v"
 COQ_TARGETS = ["props/C19.v"]
-THEOREMS = ["C19_scoped", "C19_delivery", "C19_not_left_active", "C19_select_first"]
+THEOREMS = ["C19_scoped", "C19_delivery", "C19_not_left_active", "C19_select_first", "C19_find_code_sound", "C19_find_code_top", "C19_find_code_generic"]
 TRUSTED_BASE = [
     "Coq 8.16.1 kernel, vm_compute",
     "model/Ctx.v (context machine, tied to tracer.py by C06 / C07's K-ctx correspondence) and model/Decor.v (the wrapper as nested enabled contexts in list order; "
@@ -31,7 +31,7 @@ def gen_func(rng, idx, future=False):
     g = gen_prog.Gen(random.Random(rng.random()), rng.choice(["core", "core", "wide"]), max_depth=3)
     g.in_func = 1
     params = rng.choice(PARAMS)
-    kind = rng.choices(["plain", "raises", "recursive", "nested_same_name", "generator", "below", "above"], [8, 3, 2, 2, 1, 1, 2])[0]
+    kind = rng.choices(["plain", "raises", "recursive", "nested_same_name", "generator", "below", "above", "type_params"], [8, 3, 2, 2, 1, 1, 2, 2])[0]
     body = ["x = p", "y = %d" % rng.randrange(5)] + g.block(1, rng.choice([1, 2, 3]))
     if rng.random() < 0.4:
         body = ['"""doc of the function"""'] + body
@@ -55,7 +55,8 @@ def gen_func(rng, idx, future=False):
         # (recorded as a side effect, not fed into the control flow: the reference must take the same path)
         body[at:at] = ["def annotated(u: (1.5, 2.5) = 1):", "    return u", "_rec.append(annotated() + len(annotated.__annotations__[\"u\"]))"]
     name = "f%d" % idx
-    head = "def %s(%s):" % ("SELF", params)
+    # type_params: `def f[T](...)` - the function's code object sits inside the code object that evaluates the type parameters
+    head = "def %s%s(%s):" % ("SELF", "[T]" if kind == "type_params" else "", params)
     text = "\n".join([head] + ["    " + l for l in body]) + "\n"
     decos = {"below": ["@DECO", "@OTHER"], "above": ["@OTHER", "@DECO"]}.get(kind, ["@DECO"])
     src = text.replace("SELF", name + "__plain") + "\n".join(decos) + "\n" + text.replace("SELF", name)
@@ -142,6 +143,68 @@ def oracle_case(c, im):
     return None
 
 
+# ------------------------------------------------------------------ K-select: find_function_code vs model/Decor.v find_code
+def gen_select_case(rng):
+    """module-level functions (plain / with type parameters / async), nested functions and methods of the same names, lambdas, comprehensions, classes"""
+    names = ["f", "g", "h"]
+    lines = []
+
+    def fn(name, ind, depth):
+        generic = rng.random() < 0.35
+        head = "%s%sdef %s%s(x=1):" % (ind, "async " if rng.random() < 0.15 else "", name, "[T]" if generic else "")
+        body = ["%s    y = x" % ind]
+        if depth < 2 and rng.random() < 0.6:
+            body += fn(rng.choice(names), ind + "    ", depth + 1)
+        if rng.random() < 0.3:
+            body.append("%s    z = (lambda q: q)(1) + sum(i for i in range(2))" % ind)
+        body.append("%s    return y" % ind)
+        return [head] + body
+    for _ in range(rng.choice([1, 2, 3])):
+        r = rng.random()
+        if r < 0.7:
+            lines += fn(rng.choice(names), "", 0)
+        elif r < 0.85:
+            lines += ["class %s%s:" % (rng.choice(["K", "f"]), "[T]" if rng.random() < 0.3 else "")] + fn(rng.choice(names), "    ", 1)
+        else:
+            lines += ["type %s[T] = list[T]" % rng.choice(["A", "g"])]
+    return {"src": "\n".join(lines) + "\n", "names": names + ["K", "<lambda>"]}
+
+
+def coq_cobj(t):
+    uid, name, generic, kids = t
+    return "(CO %d %d %s [%s])" % (uid, name, "true" if generic else "false", "; ".join(coq_cobj(k) for k in kids))
+
+
+def k_select(ctx, rng, n):
+    cases = [gen_select_case(rng) for _ in range(n)]
+    cases.append({"src": "def f[T](x: T) -> T:\n    def f(z=1):\n        return z\n    return x\ndef g(x=1):\n    def h[U](q: U):\n        return q\n    return x\n", "names": ["f", "g", "h"]})
+    rc, res, o = lib.impl_run("c19_select.py", cases, timeout=300)
+    if res is None:
+        raise RuntimeError("K-select harness failed:\n" + o[-2000:])
+    L = ["From Coq Require Import List NArith Bool.", "Import ListNotations.", "From PyccoloV Require Import model.Ctx model.Decor.", "Local Open Scope N_scope.",
+         "Definition pick (m : cobj) (name : N) : option N := option_map co_uid (find_code (S (depth m)) [m] name)."]
+    good = [(c, r) for c, r in zip(cases, res) if "tree" in r]
+    for c, r in good:
+        L.append("Eval vm_compute in (let m := %s in map (pick m) [%s])." % (coq_cobj(r["tree"]), "; ".join(str(p[0]) for p in r["picks"])))
+    rc_, out = lib.coq_eval("c19_kselect", "\n".join(L) + "\n", timeout=600)
+    vals = lib.parse_marked(out) if rc_ == 0 else []
+    if rc_ != 0 or len(vals) != len(good):
+        ctx.tie_broken("correspondence", "K-select: coqc failed (%d values for %d snippets)" % (len(vals), len(good)), out[-2000:])
+        return 0, len(cases)
+    bad, okc = [], 0
+    for (c, r), v in zip(good, vals):
+        m = [None if x == "None" else x[1] for x in lib.parse_coq_list(v)]
+        if m != [p[1] for p in r["picks"]]:
+            bad.append({"src": c["src"], "names": c["names"], "model": m, "impl": [p[1] for p in r["picks"]], "tree": r["tree"]})
+        else:
+            okc += 1
+    crashed = [r for r in res if "crash" in r]
+    if bad or crashed:
+        ctx.tie_broken("correspondence", "K-select: model/Decor.v find_code and tracer.find_function_code pick different code objects in %d of %d snippets (%d crashed)"
+                       % (len(bad), len(cases), len(crashed)), json.dumps((bad + crashed)[0])[:2000])
+    return okc, len(cases)
+
+
 def signature(f):
     return {"generator": SIG_GEN, "below": SIG_BELOW, "evicted": SIG_EVICT}.get(f.get("kind"), "unlisted")
 
@@ -172,16 +235,17 @@ def run(ctx, model_ok):
             seen.add(sig)
             f.update({"case": c, "signature": sig})
             failures.append(f)
+    ksel_ok, ksel_n = k_select(ctx, rng, 40 if ctx.tier == "quick" else 400) if model_ok else (0, 0)
     return {
-        "evaluations": ncalls,
+        "evaluations": ncalls + ksel_n,
         "distinct_nontrivial": len({lib.digest(c) for c, im in zip(cases, impl) if sum(len(call["events"]) for r in im.get("funcs", {}).values() for call in r["calls"]) >= 5}),
         "rule": "generated module files with 1-3 decorated module-level functions (positional-only / keyword-only / *args / **kwargs parameters with defaults, docstrings, "
                 "raising, recursive, a nested function of the same name, generators, another decorator above or below) x 2-3 argument lists each x 1-2 tracers via "
                 "pyc.instrumented([...]) or @tracer; calls of the different functions interleaved; per call: decorated vs original outcome, tracer stack / flags before and "
                 "after, events during the call vs the same function instrumented through exec, node validity; non-trivial = >= 5 events; distinct by sha1",
         "samples": [{"funcs": cases[-1]["funcs"], "style": cases[-1]["style"], "tracers": cases[-1]["tracers"], "module_tail": cases[-1]["module_src"][-400:]}],
-        "traces_validated": 0,
-        "distribution": {"function_kinds": kinds, "calls": ncalls, "modules": len(cases)},
+        "traces_validated": ksel_ok,
+        "distribution": {"function_kinds": kinds, "calls": ncalls, "modules": len(cases), "code_trees_agreeing_with_find_code": ksel_ok},
         "failures": failures, "extra": {},
     }
 
